@@ -1,6 +1,7 @@
 package authz
 
 import (
+	oidcv1 "github.com/istio-ecosystem/authservice/config/gen/go/v1/oidc"
 	"github.com/istio-ecosystem/authservice/internal/vn"
 )
 
@@ -8,6 +9,7 @@ func init() {
 	verifHarnesses["VerifC05_Session"] = VerifC05_Session
 	verifHarnesses["VerifC05_Callback"] = VerifC05_Callback
 	verifHarnesses["VerifC05_Logout"] = VerifC05_Logout
+	verifHarnesses["VerifC05_CookieNameForAnyPrefix"] = VerifC05_CookieNameForAnyPrefix
 }
 
 func VerifC05_Session()  { verifC05(pathAny) }
@@ -79,4 +81,23 @@ func verifC05(pathShape int) {
 			vn.Assert("C05/nothing-left-under-the-presented-id", sl == nil)
 		}
 	}
+}
+
+// VerifC05_CookieNameForAnyPrefix: "for all cookie-name prefixes" -- the step harnesses draw short
+// lower-case prefixes; here the prefix is any byte string up to 10 bytes (so also spellings of
+// "__Host-" itself, upper case, separators) and the name every answer uses (getCookieName, through
+// which the Set-Cookie of the login redirect, the cookie lookup and the logout all go) is, byte for
+// byte, "__Host-" + prefix + "-authservice-session-id-cookie", or the default name for no prefix.
+func VerifC05_CookieNameForAnyPrefix() {
+	prefix := vn.String("cookie-name-prefix", 10)
+	cfg := &oidcv1.OIDCConfig{CookieNamePrefix: prefix}
+	got := getCookieName(cfg)
+	want := "__Host-authservice-session-id-cookie"
+	if prefix != "" {
+		want = "__Host-" + prefix + "-authservice-session-id-cookie"
+	}
+	vn.Cover("C05/prefix-given", prefix != "")
+	vn.Assert("C05/cookie-name-is-host-prefixed-for-any-prefix", got == want)
+	set := generateSetCookieHeader(got, "v", -1)
+	vn.Assert("C05/set-cookie-carries-that-name-and-the-attributes", set == want+"=v; HttpOnly; Secure; SameSite=Lax; Path=/")
 }
